@@ -698,6 +698,10 @@ def check_C06(ctx, unit):
             ctx.inst("H.rb-list", "%s::%s" % (RB, name), not bad_l and n_l > 0, g.loc,
                      "; ".join(sorted(set(bad_l))[:3]) if bad_l else "%d list-link writes over %d paths, all paired" % (n_l, len(ex)), g)
 
+    from .rules_link import check_conditional_snapshot
+    ctx.rule("K.conditional-snapshot", "a local snapshot of a hook field (colour, link) is not used after that field was "
+             "rewritten on some but not all of the paths from the snapshot to the use", 1)
+    check_conditional_snapshot(ctx, "K.conditional-snapshot", [g_ for gs_ in fns.values() for g_ in gs_])
     # descent -- both decided by small path-sensitive interpretations of the function, not by the shape of its branches
     ts = [x for x in unit.functions if x.owner_cls == "frg::_redblack::tree_struct" and x.name == "insert"]
     for g in ts[:1]:
@@ -1001,6 +1005,15 @@ def check_C07(ctx, unit, thorough=False):
         if "remove" not in fns:
             raise AnalysisBroken("anchor vanished: %s::remove [interval aggregator]" % RB)
         units_.append(("remove (with its helpers folded in)", inline_variant(unit, fns["remove"][0], sel_remove)))
+    # members that rotate (directly): a rebalancing step re-aggregates only the nodes it rotates and relies on every other
+    # aggregate on the path being current
+    rebalancers = set()
+    for gs in fns.values():
+        for g_ in gs:
+            if g_.name.startswith("rotate"):
+                continue
+            if any(x.is_call() and x.callee and x.callee["n"] in ("rotateLeft", "rotateRight") for x in g_.events()):
+                rebalancers.add(g_.did)
     for name, f in units_:
         sr = Ser(f)
 
@@ -1015,6 +1028,8 @@ def check_C07(ctx, unit, thorough=False):
                 return ("pw", sr.expr(hw[1]), sr.expr(hw[2]))
             if n.is_call() and n.callee and n.callee["n"] in ("aggregate_node", "aggregate_path") and n.args:
                 return ("agg", sr.expr(n.args[0]), n.id)
+            if n.is_call() and n.callee and n.callee.get("did") in rebalancers:
+                return ("reb", n.callee["n"], n.id)
             return None
         ex = paths_with_nullfacts(f, lab, sr)
         bad = []
@@ -1030,6 +1045,10 @@ def check_C07(ctx, unit, thorough=False):
                 after = [a for a in aggs if a[1] == x and f.reaches(nid, a[2])]
                 if not after:
                     bad.append("child link of %s written at %s and not re-aggregated afterwards" % (x, f.node(nid).loc))
+                for rb_ in [y for y in s if isinstance(y, tuple) and y[0] == "reb"]:
+                    if f.reaches(nid, rb_[2]) and not any(f.reaches(a[2], rb_[2]) for a in after):
+                        bad.append("%s() at %s rebalances before the aggregate of %s (child link written at %s) was refreshed: its "
+                                   "rotations make the later walk-up stop early" % (rb_[1], f.node(rb_[2]).loc, x, f.node(nid).loc))
             if name.startswith("rotate"):
                 au = [a for a in aggs if a[1] == "get_parent(n)"]
                 an = [a for a in aggs if a[1] == "n"]
@@ -1190,6 +1209,39 @@ def check_C08(ctx, unit):
     ctx.rule("H.read-after-clear", "no hook link is read right after the same link of the same element was set to null "
              "(a link must be saved before it is cleared)", 3)
     check_read_after_clear(ctx, "H.read-after-clear", [x for name in ("_collapse", "pop", "remove", "_merge") for x in fns[name]])
+    # once the root has been merged with something, every earlier snapshot of an interior link may be out of date: the
+    # neighbours of an element are detached BEFORE its children are merged back into the heap
+    ctx.rule("K.stale-after-root-merge", "after a call that restructures the whole heap (the root is an argument of a merge) no "
+             "earlier snapshot of a neighbour link (a local read from a hook field) is used to reach a hook again", 1)
+    for name_ in sorted(fns):
+        for g_ in fns[name_]:
+            inits_ = RA.local_inits(g_)
+            snaps = set()
+            for d_, i_ in inits_.items():
+                x_ = i_.strip()
+                if x_.kind == "MemberExpr" and x_.get("mk") == "Field" and x_.children:
+                    b_ = x_.children[0].strip()
+                    if b_.is_call() and b_.callee and b_.callee["n"] == "h":
+                        snaps.add(d_)
+            merges = [n for n in g_.events() if n.is_call() and n.callee and n.kind == "CXXMemberCallExpr" and n.callee["n"] not in Ser.PURE
+                      and any(path(a_) and path(a_)[0] == "this" and len(path(a_)) == 2 and a_.strip().kind == "MemberExpr" for a_ in n.args)]
+            if not merges:
+                continue
+            bad = []
+            for n in g_.events():
+                if n.is_call() and n.callee and n.callee["n"] == "h" and n.args:
+                    a_ = std_unwrap(n.args[-1])
+                    if a_.kind == "DeclRefExpr" and a_.d["d"] in snaps and not RA._reassigned(g_, a_.d["d"]):
+                        for m_ in merges:
+                            if g_.reaches(m_.id, n.id):
+                                bad.append("h(%s) at %s uses a link snapshot taken before the heap was restructured by %s at %s" % (
+                                    a_.n, n.loc, m_.callee["n"], m_.loc))
+            ctx.inst("K.stale-after-root-merge", g_.sig, not bad, g_.loc, "; ".join(sorted(set(bad))[:2]) if bad else
+                     "%d root merge(s); no neighbour snapshot is used afterwards" % len(merges), g_)
+    from .rules_link import check_conditional_snapshot
+    ctx.rule("K.conditional-snapshot", "a local snapshot of a hook link is not used after that link was rewritten on some but not "
+             "all of the paths from the snapshot to the use", 1)
+    check_conditional_snapshot(ctx, "K.conditional-snapshot", [g_ for gs_ in fns.values() for g_ in gs_])
     from .rules_parse import check_loop_progress
     check_loop_progress(ctx, "R.heap-loops", f, None)
     f = fns["empty"][0]
